@@ -133,7 +133,21 @@ func scaleCase(vals []float64, cls benchunit.Class, tag string) {
 		}
 	}()
 	var vs, fmts, singles, noops []string
-	sc := benchunit.CommonScale(vals, cls)
+	// CommonScale gets a private copy with spare capacity behind it; afterwards the copy and the guard
+	// slot must be unchanged (the function must not reorder, rewrite or append to its argument).
+	arg := make([]float64, len(vals), len(vals)+1)
+	copy(arg, vals)
+	arg[:len(vals)+1][len(vals)] = 12345.5
+	sc := benchunit.CommonScale(arg, cls)
+	inKept := "kept"
+	for i, v := range vals {
+		if math.Float64bits(arg[i]) != math.Float64bits(v) {
+			inKept = "mutated"
+		}
+	}
+	if arg[:len(vals)+1][len(vals)] != 12345.5 {
+		inKept = "mutated"
+	}
 	for _, v := range vals {
 		vs = append(vs, hx.F64(v))
 		fmts = append(fmts, hx.HexS(sc.Format(v)))
@@ -179,7 +193,7 @@ func scaleCase(vals []float64, cls benchunit.Class, tag string) {
 			}
 		}
 	}
-	hx.Printf("sobs %d judge=%s noop=%s min=%s\n", id, strings.Join(ok, ","), strings.Join(ok, ","), minIdx)
+	hx.Printf("sobs %d judge=%s noop=%s min=%s in=%s\n", id, strings.Join(ok, ","), strings.Join(ok, ","), minIdx, inKept)
 	id++
 }
 
